@@ -40,9 +40,13 @@ impl Run {
             .truncate(true)
             .create(true)
             .open(&self.path)?;
+        #[cfg(pnordahl_monorail_verif)]
+        crate::verif::point("tracking.run.truncated");
 
         let data = serde_json::to_vec(self)?;
         file.write_all(&data)?;
+        #[cfg(pnordahl_monorail_verif)]
+        crate::verif::point("tracking.run.written");
         Ok(())
     }
 }
